@@ -430,7 +430,7 @@ func (a *Analysis) root(v ssa.Value) (bool, string) {
 		// sync.Pool, a container, a cache held in a package-level variable...).
 		// Callees documented to return fresh values whatever they are given are
 		// listed in freshLibrary.
-		if !pointerLike(x.Type()) || freshLibrary(name) {
+		if !pointerLike(x.Type()) || freshLibrary(name) || shallowCloneOfValues(name, x.Type()) {
 			return false, ""
 		}
 		ops := append([]ssa.Value{}, x.Common().Args...)
@@ -502,4 +502,19 @@ func (a *Analysis) Writes() []Write {
 		})
 	}
 	return out
+}
+
+// shallowCloneOfValues: maps.Clone / slices.Clone of a container whose
+// elements hold no pointers: the copy shares nothing with its operand.
+func shallowCloneOfValues(name string, t types.Type) bool {
+	if !strings.HasPrefix(name, "maps.Clone") && !strings.HasPrefix(name, "slices.Clone") {
+		return false
+	}
+	switch u := t.Underlying().(type) {
+	case *types.Map:
+		return !pointerLike(u.Elem()) && !pointerLike(u.Key())
+	case *types.Slice:
+		return !pointerLike(u.Elem())
+	}
+	return false
 }
